@@ -175,7 +175,7 @@ def differing_operands(got, want, pairs, unary=False):
             b = nf_eval(want, v, o)
         except Exception as e:
             b = type(e).__name__
-        if a != b or type(a) is not type(b):
+        if a != b or type(a) is not type(b) or (isinstance(a, float) and isinstance(b, float) and repr(a) != repr(b)):
             if unary:
                 return 'v=%r: method gives %r, the plain value gives %r' % (v, a, b)
             return 'v=%r, x=%r: method gives %r, the plain value gives %r' % (v, o, a, b)
